@@ -161,7 +161,9 @@ func (sc *Scenario) inputText(s string) string {
 // exercised by ordinary operands; not when a set_run_result action saves under the router's own key (its value is an
 // evaluated template and would be cut as well)
 func genLimits(r *hx.Rand, sc *Scenario) {
-	if sc.ResultName == "" || !r.Chance(1, 4) {
+	// (nor when a child flow changes the contact: the language / name / field values its actions set are evaluated
+	// templates too, and the scenario says what they are)
+	if sc.ResultName == "" || sc.Child || !r.Chance(1, 4) {
 		return
 	}
 	key := snakify(sc.ResultName)
